@@ -91,7 +91,9 @@ SVG_ATTRS = dict((k.lower(), k) for k in [
     "preserveAlpha", "preserveAspectRatio", "primitiveUnits", "refX", "refY", "repeatCount", "repeatDur", "requiredExtensions",
     "requiredFeatures", "specularConstant", "specularExponent", "spreadMethod", "startOffset", "stdDeviation", "stitchTiles",
     "surfaceScale", "systemLanguage", "tableValues", "targetX", "targetY", "textLength", "viewBox", "viewTarget", "xChannelSelector",
-    "yChannelSelector", "zoomAndPan"])
+    "yChannelSelector", "zoomAndPan",
+    # ~adopt (DESIGN App. A): dropped from the standard's table around 2016; date not certain, so R follows html5lib
+    "contentScriptType", "contentStyleType", "externalResourcesRequired", "filterRes"])
 FOREIGN_ATTRS = {
     "xlink:actuate": (XLINK, "actuate"), "xlink:arcrole": (XLINK, "arcrole"), "xlink:href": (XLINK, "href"), "xlink:role": (XLINK, "role"),
     "xlink:show": (XLINK, "show"), "xlink:title": (XLINK, "title"), "xlink:type": (XLINK, "type"), "xml:lang": (XMLNS_XML, "lang"),
@@ -118,6 +120,10 @@ QUIRKS_PUBLIC_PREFIXES = [p.lower() for p in [
     "-//W3C//DTD HTML 3.2//", "-//W3C//DTD HTML 3.2S Draft//", "-//W3C//DTD HTML 4.0 Frameset//", "-//W3C//DTD HTML 4.0 Transitional//",
     "-//W3C//DTD HTML Experimental 19960712//", "-//W3C//DTD HTML Experimental 970421//", "-//W3C//DTD W3 HTML//", "-//W3O//DTD W3 HTML 3.0//",
     "-//WebTechs//DTD Mozilla HTML 2.0//", "-//WebTechs//DTD Mozilla HTML//"]]
+
+
+class NotModelledCore(Exception):
+    pass
 
 
 class Core(object):
@@ -150,10 +156,11 @@ class Core(object):
         return (node.ns, node.name) in s
 
     def in_scope_generic(self, pred, boundary):
+        notmpl = "template-unsupported" in self.sw
         for node in reversed(self.stack):
             if pred(node):
                 return True
-            if (node.ns, node.name) in boundary:
+            if (node.ns, node.name) in boundary and not (notmpl and node.name == "template" and node.ns == HTML):
                 return False
         return False
 
@@ -208,10 +215,11 @@ class Core(object):
     # ------------------------------------------------------------------ insertion
     def insertion_place(self, override=None):
         target = override if override is not None else self.cur
-        if self.foster and target.ns == HTML and target.name in ("table", "tbody", "tfoot", "thead", "tr"):
+        if self.foster and (target.ns == HTML or "foster-target-test-by-name" in self.sw) and \
+                target.name in ("table", "tbody", "tfoot", "thead", "tr"):
             last_table = None
             for n in reversed(self.stack):
-                if n.ns == HTML and n.name == "table":
+                if (n.ns == HTML or "foster-target-test-by-name" in self.sw) and n.name == "table":
                     last_table = n
                     break
             if last_table is None:
@@ -317,12 +325,12 @@ class Core(object):
                 return
 
     def adoption_agency(self, subject):
-        h5 = "aaa-html5lib" in self.sw
-        if not h5:
-            c = self.cur
-            if c.ns == HTML and c.name == subject and c not in self.afe:
-                self.stack.pop()
-                return
+        if "aaa-html5lib" in self.sw:
+            return self.adoption_agency_h5(subject)
+        c = self.cur
+        if c.ns == HTML and c.name == subject and c not in self.afe:
+            self.stack.pop()
+            return
         outer = 0
         while outer < 8:
             outer += 1
@@ -332,10 +340,7 @@ class Core(object):
             if fmt not in self.stack:
                 self.afe.remove(fmt)
                 return
-            if h5:
-                if not self.in_scope(fmt.name):
-                    return
-            elif not self.node_in_scope(fmt):
+            if not self.node_in_scope(fmt):
                 return
             fi = self.stack.index(fmt)
             furthest = None
@@ -348,7 +353,7 @@ class Core(object):
                 self.afe.remove(fmt)
                 return
             common = self.stack[fi - 1]
-            bookmark = self.afe.index(fmt)
+            bookmark = self.afe.index(fmt)      # position: "just before fmt"
             node = last = furthest
             inner = 0
             idx = self.stack.index(node)
@@ -358,19 +363,13 @@ class Core(object):
                 node = self.stack[idx]
                 if node is fmt:
                     break
-                if h5:
-                    # pinned behaviour: the inner loop gives up after three rounds, leaving the rest in place
-                    if inner > 3:
-                        break
-                    if node not in self.afe:
-                        self.stack.remove(node)
-                        continue
-                else:
-                    if inner > 3 and node in self.afe:
-                        self.afe.remove(node)
-                    if node not in self.afe:
-                        self.stack.remove(node)
-                        continue
+                if inner > 3 and node in self.afe:
+                    if self.afe.index(node) < bookmark:
+                        bookmark -= 1
+                    self.afe.remove(node)
+                if node not in self.afe:
+                    self.stack.remove(node)
+                    continue
                 clone = self.create_element(node.name, list(node.attrs), node.ns)
                 self.afe[self.afe.index(node)] = clone
                 self.stack[self.stack.index(node)] = clone
@@ -379,17 +378,10 @@ class Core(object):
                     bookmark = self.afe.index(node) + 1
                 node.append(last)
                 last = node
-            # insert last node at the appropriate place with common ancestor as override target
             if last.parent is not None:
                 last.parent.remove(last)
             saved = self.foster
-            if h5:
-                # pinned behaviour: foster-parent only when the common ancestor is a table part (same rule, via name test)
-                self.foster = common.ns == HTML and common.name in ("table", "tbody", "tfoot", "thead", "tr") or False
-                if common.name in ("table", "tbody", "tfoot", "thead", "tr"):
-                    self.foster = True
-            else:
-                self.foster = True
+            self.foster = True
             place = self.insertion_place(common)
             self.foster = saved
             self.insert_node(last, place)
@@ -397,8 +389,90 @@ class Core(object):
             for ch in list(furthest.children):
                 clone.append(ch)
             furthest.append(clone)
+            if self.afe.index(fmt) < bookmark:
+                bookmark -= 1
             self.afe.remove(fmt)
-            self.afe.insert(min(bookmark, len(self.afe)), clone)
+            self.afe.insert(bookmark, clone)
+            self.stack.remove(fmt)
+            self.stack.insert(self.stack.index(furthest) + 1, clone)
+
+    def adoption_agency_h5(self, subject):
+        """html5lib's endTagFormatting on the pinned tree, step for step (listed finding aaa-html5lib)."""
+        outer = 0
+        while outer < 8:
+            outer += 1
+            fmt = None
+            for e in reversed(self.afe):
+                if e is MARKER:
+                    break
+                if e.name == subject:
+                    fmt = e
+                    break
+            if fmt is None or (fmt in self.stack and not self.in_scope(fmt.name)):
+                return self.any_other_end_tag(subject)
+            if fmt not in self.stack:
+                self.afe.remove(fmt)
+                return
+            fi = self.stack.index(fmt)
+            furthest = None
+            for n in self.stack[fi:]:
+                if self.special(n):
+                    furthest = n
+                    break
+            if furthest is None:
+                del self.stack[fi:]
+                self.afe.remove(fmt)
+                return
+            common = self.stack[fi - 1]
+            bookmark = self.afe.index(fmt)
+            last = node = furthest
+            inner = 0
+            idx = self.stack.index(node)
+            while inner < 3:
+                inner += 1
+                idx -= 1
+                node = self.stack[idx]
+                if node not in self.afe:
+                    self.stack.remove(node)
+                    continue
+                if node is fmt:
+                    break
+                if last is furthest:
+                    bookmark = self.afe.index(node) + 1
+                clone = self.create_element(node.name, list(node.attrs), node.ns)
+                self.afe[self.afe.index(node)] = clone
+                self.stack[self.stack.index(node)] = clone
+                node = clone
+                if last.parent is not None:
+                    last.parent.remove(last)
+                node.append(last)
+                last = node
+            if last.parent is not None:
+                last.parent.remove(last)
+            if common.name in ("table", "tbody", "tfoot", "thead", "tr"):
+                saved = self.foster
+                self.foster = True
+                # getTableMisnestedNodePosition ignores the override target: it works from the last table on the stack
+                lt = None
+                for n in reversed(self.stack):
+                    if n.name == "table":
+                        lt = n
+                        break
+                self.foster = saved
+                if lt is not None and lt.parent is not None:
+                    lt.parent.insert_before(last, lt)
+                elif lt is not None:
+                    raise NotModelledCore("html5lib calls insertBefore(node, None) here")
+                else:
+                    self.stack[0].append(last)
+            else:
+                common.append(last)
+            clone = self.create_element(fmt.name, list(fmt.attrs), fmt.ns)
+            for ch in list(furthest.children):
+                clone.append(ch)
+            furthest.append(clone)
+            self.afe.remove(fmt)
+            self.afe.insert(bookmark, clone)
             self.stack.remove(fmt)
             self.stack.insert(self.stack.index(furthest) + 1, clone)
 
@@ -421,7 +495,7 @@ class Core(object):
                                 return
                     self.mode = "in_select"
                     return
-                if nm in ("td", "th") and not last:
+                if nm in ("td", "th") and (not last or "reset-mode-cell-context-in-fragment" in self.sw):
                     self.mode = "in_cell"
                     return
                 if nm == "tr":
